@@ -380,7 +380,7 @@ def files(ctx):
         for k in range(ctx.n(40, 600)):
             kinds = rng.sample(A.KINDS, k=rng.randrange(0, 4))
             vals = {kd: A.GEN[kd](rng) for kd in kinds}
-            mode = rng.choice(["same", "block-changed", "slots", "version", "order", "block-missing"])
+            mode = rng.choice(["same", "same-content-other-bytes", "same-content-other-bytes", "block-changed", "slots", "version", "order", "block-missing"])
             vals2 = dict(vals)
             n1 = n2 = rng.choice([4, 14])
             ver1 = ver2 = 1
@@ -410,8 +410,32 @@ def files(ctx):
                 p = os.path.join(d, name)
                 open(p, "wb").write(C.mkfile(n, blocks, version=ver))
                 return p
+            def mk_foreign(order, vs, n, ver, name):
+                """the same version, slot count and block list — and everything else different: when it was written, comments, where
+                and in which order the data lie in the file, junk between the blocks and in the don't-care bytes, what the unused
+                slots carry (format code, dates, comment)"""
+                import struct
+                blocks = [dict(type=A.BLOCKTYPE[kd], fmt=A.fmt_of(kd, vs[kd]), payload=A.encode(A.build(kd, vs[kd])), cdate=C.T0 - rng.randrange(10 ** 8), mdate=rng.randrange(2 ** 31),
+                               adate=rng.randrange(2 ** 31), comment=rng.choice(["", "other", "x" * 255])) for kd in order]
+                storage = list(range(len(blocks)))
+                rng.shuffle(storage)                                   # storage[j] = index (in table order) of the j-th block in the file
+                table = [storage.index(i) for i in range(len(blocks))]   # table position i -> storage position
+                data = bytearray(C.mkfile_gappy(n, [blocks[i] for i in storage], [rng.choice([0, 3, 64]) for _ in range(len(blocks) + 1)],
+                                                now=C.T0 - rng.randrange(10 ** 8), order=table))
+                struct.pack_into("<I", data, 16, ver)
+                data[24:32] = bytes(rng.randrange(256) for _ in range(8))
+                data[44:64] = bytes(rng.randrange(256) for _ in range(20))
+                for i in range(len(blocks), n):
+                    base = 64 + 288 * i
+                    struct.pack_into("<I", data, base + 4, rng.choice([0, 1, 7, 2 ** 32 - 1]))
+                    struct.pack_into("<iii", data, base + 16, rng.randrange(2 ** 31), rng.randrange(2 ** 31), rng.randrange(2 ** 31))
+                    data[base + 28:base + 32] = bytes(rng.randrange(256) for _ in range(4))
+                    data[base + 32:base + 40] = rng.choice([b"\0" * 8, b"free\0\xff\xff\xff"])
+                p = os.path.join(d, name)
+                open(p, "wb").write(bytes(data))
+                return p
             p1 = mk(kinds, vals, n1, ver1, f"a{k}.tdf")
-            p2 = mk(order2, vals2, n2, ver2, f"b{k}.tdf")
+            p2 = (mk_foreign if mode == "same-content-other-bytes" else mk)(order2, vals2, n2, ver2, f"b{k}.tdf")
             with Tdf(p1) as t1, Tdf(p2) as t2:
                 got = safe_eq(t1, t2)
             ctx.case(("file", mode, str(kinds), k), nontrivial=bool(kinds), tags=("file:" + mode,))
